@@ -620,6 +620,15 @@ func (rn *runner) dml(i int) bool {
 				if r.Intn(2) == 0 || rn.p.NoUpdate {
 					sql = fmt.Sprintf("DELETE FROM %s WHERE id = %d;", table, id)
 				}
+				if r.Intn(3) == 0 && !rn.p.NoUpdate {
+					// a multi-row statement on the scan path: it changes the rows in front of the foreign-locked one and then hits
+					// the lock half way; the abort has to take back the rows it had already changed
+					sql = fmt.Sprintf("UPDATE %s SET k = %d WHERE id >= 0 OR id < 0;", table, 2000+r.Intn(1000))
+					if r.Intn(3) == 0 {
+						sql = fmt.Sprintf("DELETE FROM %s WHERE id >= 0 OR id < 0;", table)
+					}
+					rn.h.Stats["stmt_conflict_half_way_through_a_scan"]++
+				}
 				rn.h.Stats["stmt_conflict"]++
 				return rn.stmt(i, sql, true, func(o *openTxn) {})
 			}
